@@ -371,3 +371,23 @@ func (t *Table) SetRevoked(id string, created int64) bool {
 	t.hasLast = false
 	return true
 }
+
+// Mutate replaces the stored item (id, created) by f(copy of it) - storage-level corruption for hostile-input
+// checks - and returns a function that restores the original. ok is false when there is no such item.
+func (t *Table) Mutate(id string, created int64, f func(item map[string]AV) map[string]AV) (restore func(), ok bool) {
+	t.mu.Lock()
+	defer t.mu.Unlock()
+	k := key{id, created}
+	orig, ok := t.items[k]
+	if !ok {
+		return nil, false
+	}
+	t.items[k] = f(cloneItem(orig))
+	t.hasLast = false
+	return func() {
+		t.mu.Lock()
+		t.items[k] = orig
+		t.hasLast = false
+		t.mu.Unlock()
+	}, true
+}
